@@ -1,15 +1,18 @@
 ------------------------------ MODULE EntryCheck ------------------------------
 (***************************************************************************)
 (* C14: every entry a walk yields describes its file consistently.  One    *)
-(* record per yielded entry of a real walk (`wv walk`); the std::path      *)
-(* operations the statement names were evaluated by the harness (std is    *)
-(* the oracle the statement itself names) and logged as facts:             *)
-(*   joined_eq_path   root.join(rel) = path                                *)
-(*   depth, rel_components                                                 *)
-(*   matched, candidate, rel   (texts)   is_match_rel                      *)
-(*   root_eq_given / root_is_empty / rel_eq_path                           *)
+(* record per yielded entry of a real walk (`wv walk`).  The facts the     *)
+(* statement names - joining, components, equality of paths - are derived  *)
+(* by the specification itself (PathAlg.tla) from the raw bytes of         *)
+(*   path_b   Entry::path                                                  *)
+(*   root_b, rel_b   Entry::root_relative_paths                            *)
+(*   given_b  the directory given to the walk                              *)
+(* and from  depth (Entry::depth),  matched / candidate / rel (texts),     *)
+(* is_match_rel (the real is_match on the relative segment).  The same     *)
+(* facts as evaluated by std::path in the harness are logged as well; the  *)
+(* two must agree (a MODEL record is an error of PathAlg, not of wax).     *)
 (***************************************************************************)
-EXTENDS Naturals, Sequences, TLC, Json, IOUtils
+EXTENDS PathAlg, TLC, Json, IOUtils
 
 Obs == ndJsonDeserialize(IOEnv.OBS)   \* [sid, glob : BOOLEAN, rooted : BOOLEAN, f : facts]
 
@@ -21,15 +24,36 @@ Spec == Init /\ [][Next]_vars
 
 Report(r) == PrintT(ToJson(r))
 O == Obs[case]
+F == O.f
 Dis(what) == Report([t |-> "DISAGREE", prop |-> "C14", what |-> what, sid |-> O.sid, rec |-> case, rooted |-> O.rooted, glob |-> O.glob])
+Model(what) == Report([t |-> "MODEL", what |-> what, sid |-> O.sid, rec |-> case])
+
+JoinedOK == PathEq(Join(F.root_b, F.rel_b), F.path_b)
+RelCount == Count(F.rel_b)
+RootIsGiven == PathEq(F.root_b, F.given_b)
+RelIsPath == PathEq(F.rel_b, F.path_b)
+(* an entry of an unrooted walk lies beneath the given directory and its relative segment is what follows it *)
+BeneathGiven == StartsWith(F.path_b, F.given_b) /\ Rest(F.path_b, F.given_b) = Below(Comps(F.rel_b))
 
 Consistent ==
   st = "done" =>
-    /\ O.f.joined_eq_path \/ Dis("root_joined_with_relative_is_not_the_path")
-    /\ (O.f.depth = O.f.rel_components) \/ Dis("depth_is_not_the_number_of_components_of_the_relative_segment")
-    /\ (O.glob => O.f.matched = O.f.rel) \/ Dis("matched_text_is_not_the_relative_segment")
-    /\ (O.glob => O.f.candidate = O.f.rel) \/ Dis("candidate_path_is_not_the_relative_segment")
-    /\ (O.glob => O.f.is_match_rel) \/ Dis("relative_segment_is_not_matched_by_the_glob")
-    /\ (~O.rooted => O.f.root_eq_given) \/ Dis("root_segment_is_not_the_given_directory")
-    /\ (O.rooted => O.f.root_is_empty /\ O.f.rel_eq_path) \/ Dis("rooted_glob_root_segment_not_empty")
+    /\ JoinedOK \/ Dis("root_joined_with_relative_is_not_the_path")
+    /\ (F.depth = RelCount) \/ Dis("depth_is_not_the_number_of_components_of_the_relative_segment")
+    /\ (O.glob => F.matched = F.rel) \/ Dis("matched_text_is_not_the_relative_segment")
+    /\ (O.glob => F.candidate = F.rel) \/ Dis("candidate_path_is_not_the_relative_segment")
+    /\ (O.glob => F.is_match_rel) \/ Dis("relative_segment_is_not_matched_by_the_glob")
+    /\ (~O.rooted => RootIsGiven) \/ Dis("root_segment_is_not_the_given_directory")
+    /\ (~O.rooted => BeneathGiven) \/ Dis("relative_segment_is_not_the_path_below_the_given_directory")
+    /\ (O.rooted => F.root_b = <<>> /\ RelIsPath) \/ Dis("rooted_glob_root_segment_not_empty")
+    /\ (~IsAbs(F.rel_b) \/ O.rooted) \/ Dis("relative_segment_is_absolute")
+
+(* the path algebra of the specification and std::path agree on every recorded entry *)
+StdAgrees ==
+  st = "done" =>
+    /\ (JoinedOK <=> F.joined_eq_path) \/ Model("join")
+    /\ (RelCount = F.rel_components) \/ Model("components")
+    /\ (RootIsGiven <=> F.root_eq_given) \/ Model("equality_root_given")
+    /\ (RelIsPath <=> F.rel_eq_path) \/ Model("equality_rel_path")
+    /\ ((F.root_b = <<>>) <=> F.root_is_empty) \/ Model("empty")
+    /\ (IsAbs(F.rel_b) <=> F.rel_is_absolute) \/ Model("absolute")
 =============================================================================
